@@ -151,6 +151,21 @@ def execute(run):
                             outcome_class(outcome(vine.to_dict))]
                 ctx.stats['structure_rechecked_after_use'] += 1
                 ctx.event('use', used)
+                # what to_dict() says the vine is: the exported model, read back, must be the
+                # same regular vine (the nested parents of every edge included)
+                from copulas.multivariate import VineCopula
+                with sterile(run['pseed'] + 4), Poison(p, seed=run['pseed']):
+                    back = outcome(lambda: VineCopula.from_dict(vine.to_dict()))
+                if back[0] == 'ok':
+                    ctx.stats['exported_structure_checked'] += 1
+                    for clause, detail in refs.check_vine(back[1].trees, d, cfg['trunc'] or 3,
+                                                          cfg['type'], by_content=True):
+                        if clause in seen:
+                            continue
+                        seen.add(clause)
+                        ctx.violate('regular_vine_as_exported:' + clause,
+                                    SUBJECT.replace('.fit', '.to_dict'),
+                                    'from_dict(to_dict(vine)): ' + detail, clause=clause, **cond)
                 for clause, detail in refs.check_vine(vine.trees, d, cfg['trunc'] or 3, cfg['type']):
                     if clause in seen:
                         continue
